@@ -6,9 +6,13 @@ import (
 	"regexp"
 	"strings"
 
+	"github.com/yuin/goldmark"
 	"github.com/yuin/goldmark/ast"
+	"github.com/yuin/goldmark/extension"
 	east "github.com/yuin/goldmark/extension/ast"
+	"github.com/yuin/goldmark/parser"
 	"github.com/yuin/goldmark/text"
+	"github.com/yuin/goldmark/util"
 )
 
 var reFnItem = regexp.MustCompile(`^fn:(\d+)$`)
@@ -156,6 +160,11 @@ func runC16(c *Ctx) {
 			items = append(items, it)
 		}
 	}
+	for i, it := range items {
+		if i%3 == 0 || it.stream != "footnote-documents" {
+			footnoteCase(c, it.doc)
+		}
+	}
 	lawSweep(c, cfgs, items, "footnote-graph", func(d []byte) bool { return true }, func(m mdT, d []byte) (string, bool) {
 		out, e, p := convertSafe(m.md, d)
 		if e != "" || p != "" {
@@ -242,4 +251,89 @@ func danglingExplained(m mdT, d []byte, dangling []string) bool {
 		}
 	}
 	return true
+}
+
+// ---- correspondence of the numbering / transformer model ----
+
+type fnProbe struct {
+	defs  []string
+	links []*east.FootnoteLink
+	evs   []string
+}
+
+func (p *fnProbe) Transform(doc *ast.Document, reader text.Reader, pc parser.Context) {
+	p.defs, p.links, p.evs = nil, nil, nil
+	byIndex := map[int]string{}
+	var walk func(n ast.Node)
+	walk = func(n ast.Node) {
+		switch v := n.(type) {
+		case *east.FootnoteList:
+			for d := v.FirstChild(); d != nil; d = d.NextSibling() {
+				if f, ok := d.(*east.Footnote); ok {
+					p.defs = append(p.defs, hx(f.Ref))
+					if _, seen := byIndex[f.Index]; !seen && f.Index >= 0 {
+						byIndex[f.Index] = hx(f.Ref)
+					}
+				}
+			}
+		case *east.FootnoteLink:
+			p.links = append(p.links, v)
+		}
+		for c := n.FirstChild(); c != nil; c = c.NextSibling() {
+			walk(c)
+		}
+	}
+	walk(doc)
+	for _, l := range p.links {
+		p.evs = append(p.evs, byIndex[l.Index])
+	}
+}
+
+func footnoteCase(c *Ctx, src []byte) {
+	probe := &fnProbe{}
+	md := goldmark.New(goldmark.WithExtensions(extension.Footnote),
+		goldmark.WithParserOptions(parser.WithASTTransformers(util.Prioritized(probe, 998))))
+	var doc ast.Node
+	func() {
+		defer func() { recover() }()
+		doc = md.Parser().Parse(text.NewReader(src))
+	}()
+	if doc == nil || len(probe.defs) == 0 {
+		return
+	}
+	var ls []string
+	for _, l := range probe.links {
+		ls = append(ls, fmt.Sprintf("%d.%d.%d", l.Index, l.RefCount, l.RefIndex))
+	}
+	var items []string
+	var walk func(n ast.Node)
+	walk = func(n ast.Node) {
+		if fl, ok := n.(*east.FootnoteList); ok {
+			for d := fl.FirstChild(); d != nil; d = d.NextSibling() {
+				f := d.(*east.Footnote)
+				var bl []string
+				var bw func(x ast.Node)
+				bw = func(x ast.Node) {
+					if b, ok := x.(*east.FootnoteBacklink); ok {
+						bl = append(bl, fmt.Sprintf("%d.%d.%d", b.Index, b.RefCount, b.RefIndex))
+					}
+					for cc := x.FirstChild(); cc != nil; cc = cc.NextSibling() {
+						bw(cc)
+					}
+				}
+				bw(f)
+				items = append(items, fmt.Sprintf("%d:%s", f.Index, strings.Join(bl, ",")))
+			}
+			return
+		}
+		for cc := n.FirstChild(); cc != nil; cc = cc.NextSibling() {
+			walk(cc)
+		}
+	}
+	walk(doc)
+	evs := strings.Join(probe.evs, ";")
+	if evs == "" {
+		evs = "none"
+	}
+	c.Case("Footnotes", []string{strings.Join(probe.defs, ";"), evs}, strings.Join(ls, ",")+"|"+strings.Join(items, ";"))
 }
